@@ -106,6 +106,7 @@ def rule_o1(ctx):
                 except RecursionError:
                     pass
     # Loop-bound assumptions (one named symbol each): the edge is taken at most once per path.
+    broken = []
     ONCE = {
         "sub0_recv_cb": ("num_contexts", 1,
                          "sock->num_contexts is the length of sock->contexts: when it is not > 1 the loop body that "
@@ -133,11 +134,14 @@ def rule_o1(ctx):
                    f.name.endswith(("_fini", "_free", "_destroy", "_reap", "_stop", "_close")))
         rep, sim = msgown.analyse(f, prog, summ, entry, uaios, f in send_ops, once, owning, is_fini, owning_uncond)
         if sim.truncated:
-            raise AnalysisBroken("ownership simulation truncated in %s" % f.name)
+            broken.append(f.name)
+            continue
         if not rep.items:
             r.ob(f, "%d path states, %s" % (sim.nstates, "callback cells: " + ",".join(k[-1] for k in entry) if entry else "no violation"))
         for kind, line, msg, construct, lines in rep.items:
             ctx.fail(r, f, "%s: %s" % (kind, construct), line, msg, lines)
+    if broken:
+        raise AnalysisBroken("ownership simulation truncated in %s" % ", ".join(broken))
     r.notes.append("helper summaries: %s" % ", ".join("%s#%d=%s" % (k[0], k[1], v) for k, v in sorted(summ.items())))
 
 
